@@ -122,6 +122,7 @@ func (x *Exec) oblige(kind, label, guard, goal string, pos token.Pos, props []st
 	o := &Obligation{Name: name, Func: x.rootName, Kind: kind, Guard: guard, Goal: goal, Pos: x.eng.posOf(pos), Props: props, Text: text}
 	x.ctx.Oblige(o)
 	if x.rootSpec != nil {
+		o.Budget = x.rootSpec.Budget
 		short := strings.TrimPrefix(name, x.rootName+":")
 		for _, f := range x.rootSpec.Focus {
 			if globMatch(f.Obl, short) {
